@@ -13,8 +13,13 @@ const all = vsched.RD | vsched.WR | vsched.ACQ | vsched.REL
 
 func o(p unsafe.Pointer) *vsched.Obj { return vsched.ObjPtr(p, "atomic") }
 
+// note records the atomic access in the race monitor's shadow memory (after the
+// operation's acquire/release edges have been applied by vsched.Op).
+func note(p unsafe.Pointer, write bool) { vsched.AtomicAccess(p, "atomic word|sync/atomic|", write) }
+
 func CompareAndSwapInt32(p *int32, old, new int32) bool {
 	vsched.Op("atomic.CAS32", o(unsafe.Pointer(p)), all, nil)
+	note(unsafe.Pointer(p), true)
 	if *p == old {
 		*p = new
 		vsched.Mutated()
@@ -26,11 +31,13 @@ func CompareAndSwapInt32(p *int32, old, new int32) bool {
 }
 func LoadInt32(p *int32) int32 {
 	vsched.Op("atomic.Load32", o(unsafe.Pointer(p)), vsched.RD|vsched.ACQ, nil)
+	note(unsafe.Pointer(p), false)
 	vsched.Logf("load = %d", *p)
 	return *p
 }
 func StoreInt32(p *int32, v int32) {
 	vsched.Op("atomic.Store32", o(unsafe.Pointer(p)), vsched.WR|vsched.REL, nil)
+	note(unsafe.Pointer(p), true)
 	if *p != v {
 		vsched.Mutated()
 	}
@@ -39,12 +46,14 @@ func StoreInt32(p *int32, v int32) {
 }
 func AddInt32(p *int32, d int32) int32 {
 	vsched.Op("atomic.Add32", o(unsafe.Pointer(p)), all, nil)
+	note(unsafe.Pointer(p), true)
 	*p += d
 	vsched.Mutated()
 	return *p
 }
 func SwapInt32(p *int32, v int32) int32 {
 	vsched.Op("atomic.Swap32", o(unsafe.Pointer(p)), all, nil)
+	note(unsafe.Pointer(p), true)
 	old := *p
 	*p = v
 	vsched.Mutated()
@@ -52,6 +61,7 @@ func SwapInt32(p *int32, v int32) int32 {
 }
 func CompareAndSwapInt64(p *int64, old, new int64) bool {
 	vsched.Op("atomic.CAS64", o(unsafe.Pointer(p)), all, nil)
+	note(unsafe.Pointer(p), true)
 	if *p == old {
 		*p = new
 		vsched.Mutated()
@@ -61,30 +71,36 @@ func CompareAndSwapInt64(p *int64, old, new int64) bool {
 }
 func LoadInt64(p *int64) int64 {
 	vsched.Op("atomic.Load64", o(unsafe.Pointer(p)), vsched.RD|vsched.ACQ, nil)
+	note(unsafe.Pointer(p), false)
 	return *p
 }
 func StoreInt64(p *int64, v int64) {
 	vsched.Op("atomic.Store64", o(unsafe.Pointer(p)), vsched.WR|vsched.REL, nil)
+	note(unsafe.Pointer(p), true)
 	vsched.Mutated()
 	*p = v
 }
 func AddInt64(p *int64, d int64) int64 {
 	vsched.Op("atomic.Add64", o(unsafe.Pointer(p)), all, nil)
+	note(unsafe.Pointer(p), true)
 	*p += d
 	vsched.Mutated()
 	return *p
 }
 func LoadUint32(p *uint32) uint32 {
 	vsched.Op("atomic.LoadU32", o(unsafe.Pointer(p)), vsched.RD|vsched.ACQ, nil)
+	note(unsafe.Pointer(p), false)
 	return *p
 }
 func StoreUint32(p *uint32, v uint32) {
 	vsched.Op("atomic.StoreU32", o(unsafe.Pointer(p)), vsched.WR|vsched.REL, nil)
+	note(unsafe.Pointer(p), true)
 	vsched.Mutated()
 	*p = v
 }
 func CompareAndSwapUint32(p *uint32, old, new uint32) bool {
 	vsched.Op("atomic.CASU32", o(unsafe.Pointer(p)), all, nil)
+	note(unsafe.Pointer(p), true)
 	if *p == old {
 		*p = new
 		vsched.Mutated()
